@@ -519,6 +519,11 @@ func init() {
 					for j := 0; j < r.n(3); j++ {
 						g.do("rowadd " + row + " " + item)
 					}
+					if r.chance(1, 4) {
+						// "no error" recorded on the row (the row.AddError(validate(x)) idiom): it may leave the row
+						// with a container of its own, an empty one
+						g.do(r.pick([]string{"rowadderr " + row + " nil", "rowadderrlist " + row + " nil", "rowadderrlist " + row + " nil,nil"}))
+					}
 					if r.chance(1, 2) {
 						e := newErr()
 						g.do("rowadderr " + row + " " + e)
